@@ -499,7 +499,7 @@ def probe_df(ctx, desc):
     try:
         model.df(beyond)
         raised = False
-    except IndexError:
+    except Exception:  # noqa  (IndexError today; which exception is raised beyond the curve is not part of the statement)
         raised = True
     m_ans = ctx.lean(f"df {wl(rates)} {wl(tenors)} {wl([beyond])}")
     if (m_ans == "[err]") != raised:
